@@ -127,6 +127,18 @@ class _Normalise(ast.NodeTransformer):
         self.generic_visit(node)
         return node
 
+    def visit_Call(self, node):
+        self.generic_visit(node)
+        # b"".join((a, b, c)) over a literal sequence is a + b + c (one canonical form for a fixed concatenation)
+        f = node.func
+        if isinstance(f, ast.Attribute) and f.attr == "join" and isinstance(f.value, ast.Constant) and f.value.value == b"" and len(node.args) == 1 and not node.keywords \
+                and isinstance(node.args[0], (ast.Tuple, ast.List)) and node.args[0].elts and not any(isinstance(x, ast.Starred) for x in node.args[0].elts):
+            e = node.args[0].elts[0]
+            for x in node.args[0].elts[1:]:
+                e = ast.copy_location(ast.BinOp(left=e, op=ast.Add(), right=x), node)
+            return e
+        return node
+
     def visit_IfExp(self, node):
         # canonical polarity: `a if not c else b` -> `b if c else a` (decided before the test itself is canonicalised)
         if isinstance(node.test, ast.UnaryOp) and isinstance(node.test.op, ast.Not):
